@@ -77,6 +77,9 @@ package srv
 //@   nopanic off
 //@   requires @wellformed s.Node != nil && s.Node.Pegnet != nil && s.Node.Sync != nil
 //@   modifies nothing
+//@   // the height whose rates are reported when none is asked for is read from the committed state (SelectSynced), never from the
+//@   // in-memory counter, which the sync routine advances before the block is committed (second sentence of C18)
+//@   ensures @default_height_is_the_committed_one calls("GetCurrentSync") == old(calls("GetCurrentSync"))
 //@
 //@ func (*APIServer).getSyncStatus
 //@   nopanic off
